@@ -4,6 +4,13 @@ C12 property theorems.
 import GPy.C12.Proofs
 import GPy.C12.AsmProofs
 import GPy.C12.Placement
+import GPy.C12.DepthProofs
+import GPy.C12.ConformProofs  -- [C12-ext2 g3]
+import GPy.C12.LnotabProofs  -- [C12-ext2 g4]
+import GPy.C12.TbProofs  -- [C12-ext2 g4]
+-- [C12-ext2 g2] begin
+import GPy.C12.CompileProofs
+-- [C12-ext2 g2] end
 namespace GPy.C12
 
 /-- **verify_sound.**  If the verifier accepts a code object then, for EVERY execution of
@@ -234,5 +241,329 @@ example : placementError .funcLoop [.tfFinal, .whileBody] .cont = none := by dec
 example : placementError .funcLoop [.defBody] .brk = some "'break' outside loop" := by decide
 example : placementError .func [.classBody] .ret = some "'return' outside function" := by decide
 example : placementError .module [.defBody, .withBody] .yld = none := by decide
+
+-- [C12-ext2 g1] begin
+/-! ### gpython's `StackDepth()` against the abstract machine (Depth.lean, DepthProofs.lean) -/
+
+/-- **depth_closed_dominates** (the global induction behind `stackdepth_upper_bound`).  For EVERY code
+object, every depth assignment `D` (byte offset ↦ depth) that is closed under the edge rules of
+gpython's `stackDepthWalk` – entry at offset 0 with depth ≥ 0; fall-through edge with the regenerated
+table effect (− 1 for JUMP_IF_*_OR_POP); jump edge with − 2 for FOR_ITER and + 3 for SETUP_EXCEPT /
+SETUP_FINALLY; no fall-through after JUMP_ABSOLUTE / JUMP_FORWARD – and bounded by `m`: every state the
+abstract machine reaches by ANY execution (induction over `Reach`; instruction edges by
+`effect_table_agrees`, unwinding edges by the block invariant `BI`: a loop block's level ≤ the walk's
+depth at its handler, a try / with block's level + 6 ≤ it) has depth ≤ `D pc` ≤ `m` – provided no
+reachable state has one of the two shapes the table does not describe (`WalkExcluded`: WHY_CONTINUE
+pending on the stack, WITH_CLEANUP on an exception). -/
+theorem depth_closed_dominates (c : Code) (D : Nat → Option Int) (m : Int) (hcl : DepthClosed c D m)
+    (hex : ∀ s, Reach c s → ¬ WalkExcluded c s) :
+    ∀ s, Reach c s → ∃ d, D s.pc = some d ∧ (s.stk.length : Int) ≤ d ∧ d ≤ m := by
+  intro s hr
+  obtain ⟨⟨d, h1, h2⟩, _⟩ := reach_dinv c D m hcl hex s hr
+  exact ⟨d, h1, h2, hcl.bound s.pc d h1⟩
+
+/-- **stackdepth_upper_bound (partial).**  For every code object `c` on which both succeed – the
+verifier accepts (`verify c = ok cert`) and the model of gpython's `Instructions.StackDepth()` returns
+`m` on the instruction stream of `c` (`disasm c`: one label per instruction, jumps as JumpAbs / JumpRel
+exactly as `compiler.Jump` builds them) – `m` bounds the stack depth of EVERY state reachable by any
+execution of the abstract machine (hence of every state of the certificate that is reachable), PROVIDED
+  (1) the depth assignment the walk leaves behind (`walkD`: its `startDepth` map replayed along the
+      linear pass) is closed under the walk's own edge rules (`depthClosedB`, decidable; evaluated for
+      every emitted code object by the co-process).  It is not when the `seen` pruning ("we are processing
+      this block already") cut a back edge that arrives deeper than the block was entered – for compiler
+      output: a try / with statement inside a loop, where the table's + 6 for SETUP_EXCEPT / SETUP_FINALLY is
+      never given back and the loop's back edge arrives 6 deeper; and
+  (2) the certificate predicts no state with WHY_CONTINUE pending on the value stack (`continue` that
+      leaves a `finally` / `with`: END_FINALLY re-raises it towards a target that is not an operand of
+      any instruction the walk sees there) and no WITH_CLEANUP entered with an exception
+      (`effect_table_agrees`'s slack term) – `walkExcludedB`, decidable.
+Exclusion (2, WITH_CLEANUP) is necessary: `stackdepth_with_cleanup_witness`.  For (1) and (2, continue) no
+violating stream is known; they are the limits of this proof (the walk's result is then sound only
+because real cycles have no net effect, which is a global property of the stream). -/
+theorem stackdepth_upper_bound_partial (c : Code) (cert : Cert) (hv : verify c = .ok cert) (w : WalkSt)
+    (hw : walkOf c = some w)
+    (hcl : depthClosedB c (walkD c w) w.maxdepth = true) (hex : walkExcludedB c cert = false) :
+    stackDepth (disasm c) = some w.maxdepth ∧
+    ∀ s, Reach c s → (s.stk.length : Int) ≤ w.maxdepth := by
+  constructor
+  · unfold walkOf walkFuel at hw
+    unfold stackDepth
+    simp only at hw ⊢
+    rw [hw]
+    rfl
+  · intro s hr
+    have hin := (verify_sound c cert hv).2
+    have hexr : ∀ s, Reach c s → ¬ WalkExcluded c s :=
+      fun s hr => not_excluded_of_B c cert hex s.pc (s.stk, s.blk) (hin s hr)
+    obtain ⟨d, _, h2, h3⟩ := depth_closed_dominates c _ _ (depthClosed_of_B c _ _ hcl) hexr s hr
+    omega
+
+/-- the stream `LOAD_CONST; SETUP_WITH h; RAISE_VARARGS 0; h: WITH_CLEANUP; LOAD_CONST; RAISE_VARARGS 0`
+(assembled by the model of `Assemble`) -/
+def wcCode : Code :=
+  { code := #[100, 0, 0, 143, 3, 0, 130, 0, 0, 81, 100, 0, 0, 130, 0, 0], consts := #[.other], nnames := 0, nvarnames := 0,
+    ncells := 0, stacksize := 9, lnotab := #[], firstlineno := 1, nlines := 0, flags := 0 }
+
+set_option maxRecDepth 8000 in
+/-- **stackdepth_with_cleanup_witness.**  The unrestricted `stackdepth_upper_bound` is FALSE for
+arbitrary instruction streams: on this stream `StackDepth()` returns 8 (SETUP_WITH's 7 above the
+context manager), the verifier accepts it with `Stacksize` 9 – and the abstract machine reaches depth 9:
+the exception unwinds into the handler with level + 6 = 7 entries, WITH_CLEANUP (table: − 1) leaves
+them and pushes WHY_SILENCED when `__exit__` returns true (8), and the LOAD_CONST that follows makes 9.
+(The walk's depth assignment is closed here; it is hypothesis (2) that fails.)  The compiler never emits
+this – it always puts END_FINALLY after WITH_CLEANUP, which pops down to the handler's level – so no
+emitted `Stacksize` is too small because of it (each emitted object's max depth ≤ Stacksize is checked by
+the verifier); it is the table row "XXX Sometimes more" that makes the general statement fail. -/
+theorem stackdepth_with_cleanup_witness :
+    assemble [.oparg .LOAD_CONST 0, .jrel .SETUP_WITH 0 1, .oparg .RAISE_VARARGS 0, .label 1, .op .WITH_CLEANUP,
+              .oparg .LOAD_CONST 0, .oparg .RAISE_VARARGS 0] = .ok wcCode.code.toList ∧
+    stackDepth [.oparg .LOAD_CONST 0, .jrel .SETUP_WITH 0 1, .oparg .RAISE_VARARGS 0, .label 1, .op .WITH_CLEANUP,
+              .oparg .LOAD_CONST 0, .oparg .RAISE_VARARGS 0] = some 8 ∧
+    stackDepth (disasm wcCode) = some 8 ∧
+    okB (verify wcCode) = true ∧
+    Reach wcCode ⟨13, [.obj, .why .silenced, .exc, .obj, .obj, .obj, .obj, .obj, .obj], [⟨.handler, 0, 0⟩]⟩ := by
+  refine ⟨by rfl, by decide, by decide, by decide, ?_⟩
+  have r0 : Reach wcCode ⟨0, [], []⟩ := .init
+  have r1 : Reach wcCode ⟨3, [.obj], []⟩ := .next r0 (by decide)
+  have r2 : Reach wcCode ⟨6, [.obj, .obj], [⟨.finally, 9, 1⟩]⟩ := .next r1 (by decide)
+  have r3 : Reach wcCode ⟨9, [.exc, .obj, .obj, .obj, .obj, .obj, .obj], [⟨.handler, 0, 1⟩]⟩ := .next r2 (by decide)
+  have r4 : Reach wcCode ⟨10, [.why .silenced, .exc, .obj, .obj, .obj, .obj, .obj, .obj], [⟨.handler, 0, 0⟩]⟩ :=
+    .next r3 (by decide)
+  exact .next r4 (by decide)
+
+/-- non-vacuity of `stackdepth_upper_bound_partial`: all its hypotheses hold for gpython's bytecode of
+`if a: b` + implicit return (`decide`; the kernel evaluates the verifier, the walk, the closure check and the
+exclusion check).  For loops and the other shapes the hypotheses are EVALUATED by the co-process for every
+emitted code object of every run (`depth_closed` / `depth_excluded` in the evidence). -/
+def exIf : Code :=
+  { code := #[100, 0, 0, 114, 10, 0, 100, 0, 0, 1, 100, 0, 0, 83],
+    consts := #[.none], nnames := 0, nvarnames := 0, ncells := 0, stacksize := 1, lnotab := #[], firstlineno := 1, nlines := 0, flags := 64 }
+
+def hypothesesHold (c : Code) (m : Int) : Bool :=
+  match verify c, walkOf c with
+  | .ok cert, some w => decide (w.maxdepth = m) && depthClosedB c (walkD c w) w.maxdepth && !walkExcludedB c cert
+  | _, _ => false
+
+example : hypothesesHold exIf 1 = true := by decide
+/-- … and hypothesis (2) fails on the witness stream (its walk is closed) -/
+example : hypothesesHold wcCode 8 = false := by decide
+-- [C12-ext2 g1] end
+-- [C12-ext2 g3] begin
+/-! ### dynamic conformance: what an accepted `S` line (two consecutive H2 observations of one frame) establishes -/
+
+/-- **observed_transition_is_step.**  For every code object the verifier accepts and every pair of observations
+`o1`, `o2` (pc, depth, kinds, block stack as the harness prints them) that the co-process's transition check
+`stepConforms` accepts: there are abstract states `s`, `s'` such that `s` is predicted by the certificate and explains
+`o1`, `s'` is an outcome of ONE `step` of the abstract machine from `s` (`next`, or `yield` = suspended and resumed with the
+sent value pushed), `s'` explains `o2`, `s'` is again predicted by the certificate, and both are safe states (`SafeAt`:
+instruction boundary, depth ≤ Stacksize, no `bad` step).  I.e. the observed pair is an instance of the step relation the
+soundness theorem `verify_sound` is about - and conversely (`stepConforms_iff`) every such instance is accepted. -/
+theorem observed_transition_is_step (c : Code) (cert : Cert) (h : verify c = .ok cert) (o1 o2 : Obs)
+    (hs : stepConforms c cert o1 o2 = true) :
+    ∃ s s', (s.stk, s.blk) ∈ cert.at s.pc ∧ Explains s o1 ∧ Continues c s s' ∧ Explains s' o2 ∧
+      (s'.stk, s'.blk) ∈ cert.at s'.pc ∧ SafeAt c s ∧ SafeAt c s' := by
+  have f := checkFacts (verify_ok_check h)
+  obtain ⟨a, ha, he1, s', hc, he2⟩ := (stepConforms_iff c cert o1 o2).1 hs
+  have hin' := continues_in_cert f ⟨o1.pc, a.1, a.2⟩ s' ha hc
+  exact ⟨⟨o1.pc, a.1, a.2⟩, s', ha, he1, hc, he2, hin', safe_of_in_cert f _ ha, safe_of_in_cert f s' hin'⟩
+
+/-- the hypotheses of `observed_transition_is_step` are satisfiable at a non-trivial point: in `exAccepted` (the bytecode of
+`for i in x:` / `try: f(i)` / `finally: g()`) the FOR_ITER at pc 7 observed with the iterator on the stack inside the loop
+block, followed by pc 10 with the item pushed (here an int) -/
+example : ∃ cert, verify exAccepted = .ok cert ∧
+    stepConforms exAccepted cert ⟨7, 1, ["O"], "L:42:0"⟩ ⟨10, 2, ["O", "I5"], "L:42:0"⟩ = true :=
+  stepAcceptedAt_spec (by decide)
+/-! tests (by `decide`): the other two edges of FOR_ITER (exhausted: jump with the iterator dropped; the SETUP_FINALLY at 13
+and the exception edge of the CALL_FUNCTION at 22 into the finally handler at 30 with the six-entry exception shape), and
+pairs that are NOT steps are refused (exhausted iterator still on the stack; item not pushed; handler entered with a wrong
+block stack) -/
+example : stepAcceptedAt exAccepted ⟨7, 1, ["O"], "L:42:0"⟩ ⟨41, 0, [], "L:42:0"⟩ = true := by decide
+example : stepAcceptedAt exAccepted ⟨22, 3, ["O", "O", "O"], "L:42:0,F:30:1"⟩ ⟨30, 7, ["O", "N", "N", "N", "O", "O", "E"], "L:42:0,H:0:1"⟩ = true := by decide
+example : stepRefusedAt exAccepted ⟨7, 1, ["O"], "L:42:0"⟩ ⟨41, 1, ["O"], "L:42:0"⟩ = true := by decide
+example : stepRefusedAt exAccepted ⟨7, 1, ["O"], "L:42:0"⟩ ⟨10, 1, ["O"], "L:42:0"⟩ = true := by decide
+example : stepRefusedAt exAccepted ⟨22, 3, ["O", "O", "O"], "L:42:0,F:30:1"⟩ ⟨30, 7, ["O", "N", "N", "N", "O", "O", "E"], "L:42:0,F:30:1"⟩ = true := by decide
+-- [C12-ext2 g3] end
+-- [C12-ext2 g4] begin
+/-! ### `Instructions.Lnotab()` for ARBITRARY streams (line numbers may go down: multi-line expressions, decorators) -/
+
+open GPy.C02 (LInstr LinesSorted posOf tracebackAddr) in
+/-- **lnotab_running_max.**  For EVERY instruction stream (any line numbers, also decreasing ones; labels of size 0
+anywhere; gaps > 255 in either column): decoding the table `Lnotab()` emits at any byte address inside instruction `k`
+gives the running MAXIMUM of the lines of the sized instructions `0..k`, starting from 1 (`old_lineno := 1`).
+Generalises C02's `addr2line_lnotab` (which needs `LinesSorted`). -/
+theorem lnotab_running_max (is : List LInstr) (k p : Nat) (i : LInstr) (hi : is[k]? = some i) (hsz : 0 < i.size)
+    (h1 : posOf is k ≤ p) (h2 : p < posOf is (k + 1)) :
+    GPy.C02.addr2line (GPy.C02.lnotab is) 1 p = runMax is 1 k := by
+  unfold GPy.C02.addr2line GPy.C02.lnotab
+  rw [GPy.C02.lnotabGo_decode _ 0 0 1 p (Nat.le_refl _) (Nat.zero_le _)]
+  exact lineAtByte_runMax is 0 1 k p i hi hsz (by omega) (by omega)
+
+example : ([⟨3, 5⟩, ⟨3, 2⟩, ⟨0, 9⟩, ⟨1, 4⟩, ⟨3, 7⟩] : List GPy.C02.LInstr)[3]? = some ⟨1, 4⟩ := by decide
+example : GPy.C02.addr2line (GPy.C02.lnotab [⟨3, 5⟩, ⟨3, 2⟩, ⟨0, 9⟩, ⟨1, 4⟩, ⟨3, 7⟩]) 1 6 = 5 ∧
+    runMax [⟨3, 5⟩, ⟨3, 2⟩, ⟨0, 9⟩, ⟨1, 4⟩, ⟨3, 7⟩] 1 3 = 5 := by decide
+
+open GPy.C02 (LInstr LinesSorted posOf) in
+/-- **lnotab_monotone_own_line.**  Corollary: when the lines of the stream never decrease the decoded line is the
+instruction's OWN line (C02's `addr2line_lnotab`, re-derived from the running-max theorem). -/
+theorem lnotab_monotone_own_line (is : List LInstr) (k p : Nat) (i : LInstr) (hs : LinesSorted 1 is)
+    (hi : is[k]? = some i) (hsz : 0 < i.size) (h1 : posOf is k ≤ p) (h2 : p < posOf is (k + 1)) :
+    GPy.C02.addr2line (GPy.C02.lnotab is) 1 p = i.line := by
+  rw [lnotab_running_max is k p i hi hsz h1 h2]
+  exact runMax_sorted is 1 1 k i hs (Nat.le_refl _) hi hsz
+
+example : GPy.C02.LinesSorted 1 [⟨3, 2⟩, ⟨0, 2⟩, ⟨1, 300⟩] := by simp [GPy.C02.LinesSorted]
+
+/-- **addr2line_models_agree.**  The two transliterations of `py/code.go: Addr2Line` (C12's over the flat byte string of
+`Code.Lnotab`, C02's over the list of pairs) agree on every table, address and first line. -/
+theorem addr2line_models_agree (c : Code) (tab : List (Nat × Nat)) (h : c.lnotab.toList = flat tab) (q : Nat) :
+    addr2line c q = GPy.C02.addr2line tab c.firstlineno q := by
+  unfold addr2line GPy.C02.addr2line
+  rw [h]
+  exact addr2lineGo_flat _ _ _ _ _
+
+example : (withLnotab { code := #[], consts := #[], nnames := 0, nvarnames := 0, ncells := 0, stacksize := 0, lnotab := #[], firstlineno := 1, nlines := 0, flags := 0 } [⟨3, 5⟩, ⟨3, 2⟩]).lnotab.toList = flat (GPy.C02.lnotab [⟨3, 5⟩, ⟨3, 2⟩]) := by decide
+
+open GPy.C02 (LInstr) in
+/-- **lnotab_wellformed.**  For EVERY stream the table `Lnotab()` emits satisfies C12's static conditions, exactly:
+an even number of bytes, the address increments sum to at most the total code size, and the line increments sum to
+(running maximum over the whole stream) − 1; hence `LnotabOk` for the code object carrying it whenever the code holds the
+stream's bytes and the maximal line lies within the source. -/
+theorem lnotab_wellformed (c : Code) (is : List LInstr) (hsz : totalSize is ≤ c.code.size)
+    (hn : c.nlines = 0 ∨ runMax is 1 (is.length - 1) ≤ c.nlines) :
+    (lnotabSums (flat (GPy.C02.lnotab is))).1 ≤ totalSize is ∧
+    1 + (lnotabSums (flat (GPy.C02.lnotab is))).2 = runMax is 1 (is.length - 1) ∧
+    LnotabOk (withLnotab c is) := by
+  obtain ⟨h1, h2, h3, _⟩ := lnotabGo_sums is 0 0 1 (Nat.le_refl _)
+  have hr := lastRec_runMax is 0 0 1
+  have hA : (lnotabSums (flat (GPy.C02.lnotab is))).1 ≤ totalSize is := by
+    rw [lnotabSums_flat]; unfold GPy.C02.lnotab; simp only; omega
+  have hL : 1 + (lnotabSums (flat (GPy.C02.lnotab is))).2 = runMax is 1 (is.length - 1) := by
+    rw [lnotabSums_flat]; unfold GPy.C02.lnotab; simp only; omega
+  refine ⟨hA, hL, ?_, ?_, ?_⟩
+  · simp only [withLnotab, List.size_toArray, flat_length]; omega
+  · simp only [withLnotab, List.toList_toArray]; omega
+  · simp only [withLnotab, List.toList_toArray]
+    rcases hn with h0 | h0
+    · exact Or.inl h0
+    · exact Or.inr (by omega)
+
+open GPy.C02 (LInstr posOf tracebackAddr) in
+/-- **traceback_line_running_max.**  What a traceback entry names: for EVERY stream, the C12 `addr2line` of the code object
+carrying `Lnotab()` of the stream, at the address `AddTraceback` passes (`Lasti - 1`, `Lasti` already advanced past the raising
+instruction `k`), is the running maximum of the lines up to `k` – never below the instruction's own line, equal to it when no
+earlier instruction has a larger line. -/
+theorem traceback_line_running_max (c : Code) (is : List LInstr) (k : Nat) (i : LInstr) (hi : is[k]? = some i) (hsz : 0 < i.size) :
+    addr2line (withLnotab c is) (tracebackAddr is k) = runMax is 1 k ∧ i.line ≤ runMax is 1 k := by
+  refine ⟨?_, line_le_runMax is 1 k i hi hsz⟩
+  rw [addr2line_models_agree (withLnotab c is) (GPy.C02.lnotab is) (by simp [withLnotab])]
+  have hp := posOf_succ_of_get is k i hi
+  exact lnotab_running_max is k _ i hi hsz (by unfold tracebackAddr; omega) (by unfold tracebackAddr; omega)
+
+/-- non-vacuity: `f(a,\n b)` faulting in the call (line 2), then an instruction of line 1 (decreasing) – still line 2 -/
+example : addr2line (withLnotab { code := #[], consts := #[], nnames := 0, nvarnames := 0, ncells := 0, stacksize := 0, lnotab := #[], firstlineno := 1, nlines := 0, flags := 0 } [⟨3, 1⟩, ⟨3, 2⟩, ⟨3, 1⟩, ⟨1, 1⟩]) (GPy.C02.tracebackAddr [⟨3, 1⟩, ⟨3, 2⟩, ⟨3, 1⟩, ⟨1, 1⟩] 2) = 2 := by decide
+/-! ### family `tb`: gpython's line assignment names the line Python 3.4 names -/
+
+open Tb in
+/-- **tb_model_eq_spec.**  For EVERY compile-event list (visit line / emit instruction) in which each run of consecutive
+visits has non-decreasing lines (a node's line is the line of its first token, so a parent is never below its first
+child) and every instruction has a positive size: the line gpython reports for the first faulting instruction – raw
+`c.Lineno` per instruction (ASSIGNED on each visit, may decrease), `Lnotab()`, `Addr2Line(Lasti-1)` – equals the line
+Python 3.4 reports (`u_lineno` only increases: max of the visited lines). -/
+theorem tb_model_eq_spec (evs : List Ev) (hok : evsOk evs = true) : modelGo evs 1 = specGo evs 1 :=
+  modelGo_eq_specGo evs 1 (Nat.le_refl _) hok (Or.inl (Nat.le_refl _))
+
+open Tb in
+/-- **tb_stmt_model_eq_spec.**  For every statement shape of family `tb` passing the decidable side condition `St.ok`
+(the generator evaluates it on every case: tag `vok`), model verdict = spec verdict, including the comprehension's own
+code object (whose lines start at the comprehension's line). -/
+theorem tb_stmt_model_eq_spec (s : Tb.St) (hok : s.ok = true) : s.model = s.spec := by
+  cases s with
+  | comp l0 lb elt lf iter cond badIter =>
+    simp only [St.ok, Bool.and_eq_true, decide_eq_true_eq] at hok
+    obtain ⟨⟨hin, hlb⟩, hout⟩ := hok
+    have hinner : modelGo (compInner lf elt cond) lb = specGo (compInner lf elt cond) lb :=
+      modelGo_eq_specGo _ lb hlb hin (Or.inr (by intro a r h; simp [compInner] at h))
+    simp only [St.model, St.spec, hinner]
+    exact tb_model_eq_spec _ hout
+  | asg l0 e => exact tb_model_eq_spec _ hok
+  | ret l0 e => exact tb_model_eq_spec _ hok
+  | asrt l0 t m f => exact tb_model_eq_spec _ hok
+  | withS l0 a b bad => exact tb_model_eq_spec _ hok
+  | deco ds dl d c b => exact tb_model_eq_spec _ hok
+  | dflt2 l0 a b => exact tb_model_eq_spec _ hok
+
+/-- non-vacuity: `x = (\n fn( v,\n v,\n boom()))` – and a point where the side condition matters: a visit of line 5
+directly followed by a visit of line 2 loses line 5 in gpython's raw stream (no such node order arises from the shapes) -/
+example : (Tb.St.asg 29 (.call3 (.nm 30 "fn") (.nm 30 "v") (.nm 31 "v") (.boom 32) false)).ok = true := by decide
+example : Tb.modelGo [.visit 5, .visit 2, .emit 3 (Tb.here "X")] 1 = some (2, ⟨[], "X"⟩) ∧
+    Tb.specGo [.visit 5, .visit 2, .emit 3 (Tb.here "X")] 1 = some (5, ⟨[], "X"⟩) := by decide
+-- [C12-ext2 g4] end
+-- [C12-ext2 g2] begin
+/-! ### compile_wellformed: "for all programs the compiler accepts" (statement fragment of C02) -/
+
+/-- **compile_wellformed_partial.**  For EVERY function body of the loop-only statement fragment
+(`loopOnly`: `pass`, `ev(i)`, `return ev(i)`, `raise C`, bare `raise`, `raise C(k)`, `raise C from D`,
+`raise k`, `break`, `continue`, sequencing, `if`/`else`, `while`/`else`, `for`/`else`, nested to any
+depth) that the compile model `GPy.C02.compileFn` (the transliteration of `compile/compile.go` that
+C02's check ties to the real compiler instruction by instruction) accepts, the byte-level code object
+`lower` assembles from the emitted instruction list - with the declared stack size `stackNeed body`
+(structural: 2 for the temporaries of a probe call, +1 per enclosing `for`, at least 1) - is
+`WellFormed`: every state reachable by ANY execution of the C12 abstract machine (all branch outcomes,
+every raise point, any number of loop iterations) is on an instruction boundary inside the code, has
+depth ≤ the declared stack size and no `bad` successor (no underflow, no operand outside its table,
+POP_BLOCK / BREAK_LOOP always find their loop block, no falling off the end: every path ends in
+RETURN_VALUE or an escaping exception); every instruction, reachable or not, has in-range operands
+and jump targets on instruction boundaries; the (empty) line table is well-formed.
+Proof: a structural invariant `InS` defined by recursion over the statement (which value stack and
+block stack the machine has at each instruction index, relative to the statement's entry stack and
+enclosing blocks), an environment assumption `Env` for what unwinding return / exception / break /
+continue through the enclosing blocks does, closure under `step` by induction over the statement
+(`closed`), the decode / linear-sweep lemmas of `lower` (LowerProofs.lean) and the jump-target bound
+of `compS` (TargetProofs.lean, proved for the WHOLE C02 fragment incl. try/with).
+**Excluded** (hence `_partial`): bodies containing `try/finally`, `try/except`, `with` (constructors
+`tryF`, `tryE`, `withS`); operands above 0xFFFF (`lower` fails: EXTENDED_ARG is the assembler's part,
+`assemble_fixpoint_sound`); the line table (`lnotab := #[]`); expressions other than the probe calls.
+No `_witness`: the excluded constructors are not known to fail, they are not proved yet. -/
+theorem compile_wellformed_partial (defLine : Nat) (body : C02.Stmt) (code : C02.Code) (c : Code)
+    (hf : loopOnly body = true) (hc : C02.compileFn defLine body = .ok code)
+    (hl : lower code (stackNeed body) = some c) : WellFormed c :=
+  have h := compile_safe_loopOnly hf hc hl
+  ⟨h.2, lower_lnotabOk hl, h.1⟩
+
+/-- a run of such a compiled function can only continue, return, or end with an escaping exception -/
+theorem compile_run_ends_properly (defLine : Nat) (body : C02.Stmt) (code : C02.Code) (c : Code)
+    (hf : loopOnly body = true) (hc : C02.compileFn defLine body = .ok code)
+    (hl : lower code (stackNeed body) = some c) (s : State) (hr : Reach c s) (o : Outcome) (ho : o ∈ step c s) :
+    (∃ s', o = .next s') ∨ (∃ s', o = .yield s') ∨ o = .ret ∨ o = .raise := by
+  have hs := (compile_wellformed_partial defLine body code c hf hc hl).safe s hr
+  cases o with
+  | next s' => exact .inl ⟨s', rfl⟩
+  | yield s' => exact .inr (.inl ⟨s', rfl⟩)
+  | ret => exact .inr (.inr (.inl rfl))
+  | raise => exact .inr (.inr (.inr rfl))
+  | bad m => exact absurd ho (hs.nobad m)
+
+/-- the jump-target part holds for the whole C02 statement fragment (try/except/finally/with included):
+every jump target in the code of an accepted function body is an instruction index inside the code -/
+theorem compile_targets_inside (defLine : Nat) (body : C02.Stmt) (code : C02.Code)
+    (hc : C02.compileFn defLine body = .ok code) : ∀ p ∈ code, ∀ t ∈ tgtsOf p.1, t < code.length :=
+  compileFn_targets hc
+
+/-! non-vacuity: a nested body (for / while / if / break / continue / raise / return) satisfies the
+hypotheses; the verifier (independent route) accepts the lowered code of a smaller one (test, `decide`). -/
+def exLoopBody : C02.Stmt :=
+  .seq (.forS 1 0 (.whileS 2 1 (.ifS 3 2 (.brk 4) (.seq (.ev 5 3) (.cont 5))) (.raise 6 .ValueError)) (.ev 7 4))
+       (.seq (.ifS 8 5 (.ret 9 6) .skip) (.pass 10))
+example : loopOnly exLoopBody = true := by decide
+example : ∃ code c, C02.compileFn 1 exLoopBody = .ok code ∧ lower code (stackNeed exLoopBody) = some c :=
+  ⟨_, _, rfl, rfl⟩
+example : ∃ c, lowerFn 1 exLoopBody = some c ∧ WellFormed c :=
+  ⟨_, rfl, compile_wellformed_partial 1 exLoopBody _ _ (by decide) rfl rfl⟩
+set_option maxRecDepth 100000 in
+example : (lowerFn 1 (.forS 1 0 (.ifS 2 1 (.brk 3) (.cont 4)) (.ret 5 2))).map (fun c => okB (verify c)) = some true := by
+  decide
+/-- a body outside the fragment the compile model rejects: `continue` outside a loop -/
+example : ∃ e, C02.compileFn 1 (.cont 1) = .error e := ⟨_, rfl⟩
+-- [C12-ext2 g2] end
 
 end GPy.C12
